@@ -317,7 +317,7 @@ def _dup_check_iterator_form(w, fb, kinds):
     cons = {'fn': fb.short, 'obligation': 'single-insert', 'form': 'filter_map(bound name).all(insert)'}
     ok_pred = False
     if pb is not None:
-        ins = [(bi, t) for bi, t in pb.calls() if (callee_path(t) or '').endswith('::insert') and 'HashSet' in (callee_str(t) or callee_path(t) or '')]
+        ins = [(bi, t) for bi, t in pb.calls() if (callee_path(t) or '').endswith('::insert') and re.search(r'HashSet|BTreeSet', callee_str(t) or callee_path(t) or '')]
         pv2 = BodyView(w, pb)
         if len(ins) == 1 and len(list(pb.calls())) == 1 and not any(blk['term']['t'] == 'switch' for blk in pb.blocks if not blk['cleanup']):
             it = ins[0][1]
@@ -420,8 +420,9 @@ def _dup_check_obligations(w, fb, kinds):
         return alt
     v = BodyView(w, fb)
     out = []
-    inserts = [(bi, t) for bi, t in fb.calls() if (callee_path(t) or '').endswith('HashSet::<T, S, A>::insert') or
-               ((resolved_path(t) or '').endswith('::insert') and 'HashSet' in (callee_str(t) or ''))]
+    # (a set whose insert answers `false` iff the value was present: HashSet or BTreeSet)
+    inserts = [(bi, t) for bi, t in fb.calls() if re.search(r'(HashSet::<T, S, A>|BTreeSet::<T, A>|BTreeSet::<T>)::insert$', callee_path(t) or '') or
+               ((resolved_path(t) or '').endswith('::insert') and re.search(r'HashSet|BTreeSet', callee_str(t) or ''))]
     if len(inserts) != 1:
         out.append((False, {'fn': fb.short, 'obligation': 'single-insert'}, 'expected exactly one HashSet::insert in %s, found %d' % (fb.short, len(inserts))))
         return out
